@@ -295,7 +295,35 @@ def divides(e, canon, order):
         lf = linear(e, canon, order)
     except _NotLinear:
         return set()
+    if not _reduced(e, canon, order):
+        # a plain Python difference may be negative: gcd() then divides its absolute value, which is another number
+        # modulo 2**w than the distance walked upwards (d | b - a does not give d | 2**w - (b - a))
+        return set()
     return {("lin", frozenset(lf.items()))}
+
+
+def _reduced(e, canon, order):
+    """the integer e lies in [0, 2**w) and equals its linear form modulo 2**w: explicitly reduced, an atom, a
+    constant, abs() of an ordered difference (checked by linear()), or a difference known to be non-negative"""
+    if isinstance(e, ast.Constant) or (isinstance(e, (ast.Name, ast.Attribute)) and dotted(e)):
+        return True
+    if isinstance(e, ast.BinOp):
+        if isinstance(e.op, ast.Mod) and _is_pow2w(e.right):
+            return True
+        if isinstance(e.op, ast.BitAnd) and (_is_mask(e.right) or _is_mask(e.left)):
+            return True
+        if isinstance(e.op, ast.Sub):
+            if isinstance(e.right, ast.Constant) and e.right.value == 1 and isinstance(e.left, ast.Call) and (dotted(e.left.func) or "").split(".")[-1] == "_wrapped_cardinality":
+                return True  # cardinality is in [1, 2**w]
+            a, b = dotted(e.left), dotted(e.right)
+            if a and b:
+                o = order.get(frozenset((canon(a), canon(b))))
+                return canon(a) == canon(b) or (o is not None and o == (canon(b), canon(a)))
+        return False
+    if isinstance(e, ast.Call):
+        name = (dotted(e.func) or "").split(".")[-1]
+        return name in ("_modular_sub", "_modular_add", "abs")
+    return False
 
 
 # ----------------------------------------------------------------------------- the rule
@@ -305,6 +333,16 @@ def _kw(call, name, pos=None):
     for k in call.keywords:
         if k.arg == name:
             return k.value
+        if k.arg is None:  # **{...} / **dict(...): the paths interpreter has already substituted the local
+            v = k.value
+            if isinstance(v, ast.Dict):
+                for kk, vv in zip(v.keys, v.values):
+                    if isinstance(kk, ast.Constant) and kk.value == name:
+                        return vv
+            if isinstance(v, ast.Call) and dotted(v.func) == "dict":
+                for k2 in v.keywords:
+                    if k2.arg == name:
+                        return k2.value
     if pos is not None and len(call.args) > pos:
         return call.args[pos]
     return None
@@ -318,6 +356,7 @@ def _helper_ok(R, tree, m):
     for name, want in (("_modular_sub", lambda p: {p[0]: 1, p[1]: -1}), ("_modular_add", lambda p: {p[0]: 1, p[1]: 1})):
         f = ms.get(name)
         R.need(f is not None, f"StridedInterval.{name} not found")
+        f = util.resolve_locals(f)
         p = positional_params(f)
         rets = [n for n in ast.walk(f) if isinstance(n, ast.Return) and n.value is not None]
         ok = False
@@ -333,6 +372,7 @@ def _helper_ok(R, tree, m):
                 construct=f"{name}: modular meaning")
     f = ms.get("_wrapped_cardinality")
     R.need(f is not None, "StridedInterval._wrapped_cardinality not found")
+    f = util.resolve_locals(f)
     p = positional_params(f)
     rets = [n for n in ast.walk(f) if isinstance(n, ast.Return) and n.value is not None]
     ok = bool(rets)
